@@ -41,7 +41,7 @@ type Fault struct {
 }
 
 func (f Fault) String() string {
-	if f.Kind == FStatus || f.Kind == FTruncate || f.Kind == FBodyStall {
+	if f.Kind == FStatus || f.Kind == FTruncate || f.Kind == FBodyStall || (f.Kind == FRedirect && f.Param != 0) {
 		return fmt.Sprintf("%s(%d)", faultNames[f.Kind], f.Param)
 	}
 	return faultNames[f.Kind]
@@ -246,14 +246,18 @@ func (n *Net) RoundTrip(req *http.Request) (*http.Response, error) {
 		x.Rec.Returned, x.Rec.TReturn, x.Rec.Outcome = true, time.Now(), "panic"
 		panic(n.PanicValue)
 	case FRedirect:
-		x.Rec.Status = 302
+		code := x.Fault.Param // 301/302/303 turn a POST into a GET, 307/308 repeat it with its body
+		if code == 0 {
+			code = 302
+		}
+		x.Rec.Status = code
 		if x.Serve != nil && x.Kind == "ocsp" {
 			// keep the decoded request for the second hop (same goroutine)
 			x.Rec.ReqInfo = decodeOCSPReq(req, reqBody)
 		}
 		h := http.Header{}
 		h.Set("Location", "http://redirect.sim/r?k="+url.QueryEscape(fmt.Sprintf("%s#%d", x.Key, x.Attempt)))
-		return &http.Response{StatusCode: 302, Status: "302 Found", Header: h, Body: http.NoBody, Request: req, ProtoMajor: 1, ProtoMinor: 1}, nil
+		return &http.Response{StatusCode: code, Status: fmt.Sprintf("%d %s", code, http.StatusText(code)), Header: h, Body: http.NoBody, Request: req, ProtoMajor: 1, ProtoMinor: 1}, nil
 	}
 	return n.respond(x, req, reqBody, x.Fault)
 }
